@@ -14,7 +14,7 @@ EXPLANATION = ("proved: the solver-object protocol of FullFrontend (15 obligatio
 TECHNIQUE = "mixin-in-isolation deductive proofs (pyvc, z3) + bounded run-time contracts on histories"
 RULE = _rtc.RTC_RULE
 M = "vf.contracts.mixins"
-FUNCTIONS = ["BackendZ3." + m + " (delegates exactly the caller's question)" for m in ["_satisfiable", "_solution", "_eval", "_min", "_max"]] + ["SatCacheMixin." + m for m in ["satisfiable", "check_satisfiability", "eval", "batch_eval", "min", "max", "solution", "unsat_core", "simplify", "_add"]] + \
+FUNCTIONS = ["Backend." + m + " (public query method: hands the private method exactly the caller's question)" for m in ["eval", "batch_eval", "min", "max", "solution", "satisfiable", "check_satisfiability"]] + ["BackendZ3." + m + " (delegates exactly the caller's question)" for m in ["_satisfiable", "_solution", "_eval", "_min", "_max"]] + ["SatCacheMixin." + m for m in ["satisfiable", "check_satisfiability", "eval", "batch_eval", "min", "max", "solution", "unsat_core", "simplify", "_add"]] + \
             ["ModelCacheMixin." + m for m in ["min", "max", "eval", "batch_eval", "solution", "satisfiable", "_add", "_get_models", "_get_solutions", "_model_hook"]] + \
             ["BackendZ3._extrema", "BackendZ3._batch_eval"] + \
             ["FullFrontend." + m for m in ["_get_solver", "_add_constraints", "_add", "_copy", "_blank_copy", "simplify", "downsize", "satisfiable", "check_satisfiability",
@@ -42,6 +42,8 @@ def tasks(tier, seed=0):
     out += [task(Z, "ob_batch_eval", "z3solve._batch_eval/state-restored+results", ["C17", "C14", "C11"], tier=tier),
             task(Z, "ob_extrema", "z3solve._extrema/true-optimum", ["C11", "C17"], tier=tier)]
     out += [task(Z, "ob_thin_wrappers", f"z3solve.BackendZ3.{m}/delegates-the-callers-question", ["C11", "C14", "C17"], which=m, tier=tier) for m in ("_satisfiable", "_solution", "_eval", "_min", "_max")]
+    from vf.contracts import backendpub
+    out += [task("vf.contracts.backendpub", "ob_public", f"backend.Backend.{m}/hands-the-private-method-the-callers-question", ["C11", "C14", "C17"], method=m, tier=tier) for m in backendpub.METHODS]
     from vf.contracts import fullfront
     out += [task("vf.contracts.fullfront", "ob_fullfront", f"fullfrontend.{m}/protocol", ["C11", "C14"], method=m, tier=tier) for m in fullfront.METHODS]
     out.append(task("vf.contracts.layers", "ob_method_coverage", "layer.methods/every-mixin-method-accounted-for", ["C11", "C14"]))
